@@ -16,12 +16,14 @@ pub enum Re {
     Star(Box<Re>),
     Plus(Box<Re>),
     Cap(&'static str, Box<Re>),
+    /// one or more chars out of the set, maximal munch, never given back (iterative: no recursion per character)
+    Run(&'static str),
+    /// zero or more repetitions of a capture-free group, each repetition the group's first match, never given back
+    StarP(Box<Re>),
 }
 use Re::*;
 
 fn opt(r: Re) -> Re { Opt(Box::new(r)) }
-fn plus(r: Re) -> Re { Plus(Box::new(r)) }
-fn star(r: Re) -> Re { Star(Box::new(r)) }
 fn cap(n: &'static str, r: Re) -> Re { Cap(n, Box::new(r)) }
 
 const DIGITS: &str = "0123456789";
@@ -29,7 +31,18 @@ const SEP: &str = "-_.";
 const ALNUM: &str = "abcdefghijklmnopqrstuvwxyz0123456789";
 
 /// PEP 440, Appendix B (VERSION_PATTERN), without the surrounding `\s*`.
-pub fn appendix_b() -> Re {
+pub fn appendix_b() -> Re { grammar(false) }
+
+/// The same grammar with the digit / alphanumeric runs and the two repeated groups (`(\.[0-9]+)*` of the release, `([-_.][a-z0-9]+)*` of
+/// the local part) as possessive, iterative nodes - used for long inputs, where the recursive matcher would need a stack frame per
+/// character. Equivalence: a digit given back by a run, or a `.N` group given back by the release, would have to be matched by what
+/// follows it in the pattern - a separator, a letter, `!`, `+` or the end - which no digit and no `.digit` can; the local part is
+/// last and must reach the end of the string. C09 re-validates the equivalence on every short string it enumerates.
+pub fn appendix_b_possessive() -> Re { grammar(true) }
+
+fn grammar(possessive: bool) -> Re {
+    let plus = |r: Re| -> Re { match (&r, possessive) { (Set(x), true) => Run(x), _ => Plus(Box::new(r)) } };
+    let star = |r: Re| -> Re { if possessive { StarP(Box::new(r)) } else { Star(Box::new(r)) } };
     Seq(vec![
         opt(Lit("v")),
         opt(Seq(vec![cap("epoch", plus(Set(DIGITS))), Lit("!")])),
@@ -92,6 +105,21 @@ fn m(re: &Re, s: &[char], pos: usize, caps: &mut Caps, k: &mut dyn FnMut(usize, 
             let mut rest = |p: usize, c: &mut Caps| -> bool { m(&st, s, p, c, k) };
             m(r, s, pos, caps, &mut rest)
         }
+        Run(set) => {
+            let mut p = pos;
+            while p < s.len() && s[p].is_ascii() && set.contains(s[p].to_ascii_lowercase()) { p += 1; }
+            if p == pos { false } else { k(p, caps) }
+        }
+        StarP(r) => {
+            let mut p = pos;
+            loop {
+                let mut end: Option<usize> = None;
+                let mut scratch: Caps = vec![];
+                let mut first = |e: usize, _c: &mut Caps| -> bool { end = Some(e); true };
+                if m(r, s, p, &mut scratch, &mut first) && end.unwrap() > p { p = end.unwrap(); } else { break; }
+            }
+            k(p, caps)
+        }
         Cap(name, r) => {
             let n = *name;
             let mut done = |p: usize, c: &mut Caps| -> bool {
@@ -117,6 +145,8 @@ fn clone_ref(r: &Re) -> Re {
         Star(x) => Star(Box::new(clone_ref(x))),
         Plus(x) => Plus(Box::new(clone_ref(x))),
         Cap(n, x) => Cap(n, Box::new(clone_ref(x))),
+        Run(x) => Run(x),
+        StarP(x) => StarP(Box::new(clone_ref(x))),
     }
 }
 
@@ -148,15 +178,20 @@ fn strip(d: &str) -> String {
     if t.is_empty() { "0".into() } else { t.into() }
 }
 
-thread_local! { static GRAMMAR: Re = appendix_b(); }
+thread_local! { static GRAMMAR: Re = appendix_b(); static GRAMMAR_P: Re = appendix_b_possessive(); }
+
+/// inputs longer than this go through the possessive (iterative) form of the grammar
+pub const LONG_INPUT: usize = 2048;
 
 /// Full-string match of Appendix B; None if the string is not a PEP 440 version.
-pub fn parse(x: &str) -> Option<Parsed> {
+pub fn parse(x: &str) -> Option<Parsed> { parse_with(x, x.len() > LONG_INPUT) }
+
+pub fn parse_with(x: &str, possessive: bool) -> Option<Parsed> {
     let chars: Vec<char> = x.chars().collect();
     let mut caps: Caps = vec![];
     let mut result: Option<Caps> = None;
     let n = chars.len();
-    GRAMMAR.with(|g| {
+    (if possessive { &GRAMMAR_P } else { &GRAMMAR }).with(|g| {
         let mut k = |p: usize, c: &mut Caps| -> bool {
             if p == n {
                 result = Some(c.clone());
